@@ -77,6 +77,18 @@ class RaisedInModel(Exception):
         self.node = node
 
 
+def _has_yield(fnode):
+    todo = list(fnode.body)
+    while todo:
+        n = todo.pop()
+        if isinstance(n, (ast.Yield, ast.YieldFrom)):
+            return True
+        if isinstance(n, (ast.FunctionDef, ast.AsyncFunctionDef, ast.Lambda, ast.ClassDef)):
+            continue
+        todo.extend(ast.iter_child_nodes(n))
+    return False
+
+
 class Evaluator:
     """Subclass and override name/attr/subscript/call as needed."""
 
@@ -357,7 +369,28 @@ class Evaluator:
         for n_, d in zip(names[len(names) - len(defaults):], defaults):
             if n_ not in self.env:
                 self.env[n_] = self.ev(d)
+        if _has_yield(fnode) and not hasattr(self, "yielded"):
+            # a generator function: what it yields, in order (eager - as a consumer that drains it sees it)
+            self.yielded = []
+            self.run_body(fnode.body)
+            return self.yielded
         return self.run_body(fnode.body)
+
+    def ev_Yield(self, node):
+        if not hasattr(self, "yielded"):
+            raise Unsupported("yield outside a generator function")
+        self.yielded.append(self.ev(node.value) if node.value is not None else None)
+        return None
+
+    def ev_YieldFrom(self, node):
+        if not hasattr(self, "yielded"):
+            raise Unsupported("yield from outside a generator function")
+        v = self.ev(node.value)
+        try:
+            self.yielded.extend(list(v))
+        except TypeError:
+            raise Unsupported("yield from %r" % (v,))
+        return None
 
     def run_body(self, body):
         try:
